@@ -429,6 +429,8 @@ func (u *Universe) Prelude(db *SpecDB) string {
 	// Bytes: abstract byte strings (length + contents normalised to 0 outside
 	// [0,len)), so that SMT equality is equality of byte strings
 	b.WriteString("(declare-datatypes ((Bytes 0)) (((mk.bytes (b.len Int) (b.arr (Array Int Int))))))\n")
+	b.WriteString("(declare-fun fld (Int Int) Int)\n(declare-fun fld.base (Int) Int)\n(declare-fun fld.idx (Int) Int)\n")
+	b.WriteString("(assert (forall ((r Int) (k Int)) (! (and (< (fld r k) 0) (= (fld.base (fld r k)) r) (= (fld.idx (fld r k)) k)) :pattern ((fld r k)))))\n")
 	b.WriteString("(declare-fun loc (Int Int) Int)\n(assert (forall ((o Int) (i Int)) (! (= (loc o i) (+ o i)) :pattern ((loc o i)))))\n")
 	b.WriteString("(declare-fun win ((Array Int Int) Int Int) (Array Int Int))\n")
 	b.WriteString("(assert (forall ((r (Array Int Int)) (o Int) (n Int) (i Int)) (! (= (select (win r o n) i) (ite (and (<= 0 i) (< i n)) (select r (loc o i)) 0)) :pattern ((select (win r o n) i)))))\n")
